@@ -84,7 +84,7 @@ pub fn recv_one(data: &[u8], mask: &[&str], known: &Known) -> Vec<Found> {
             Op::Decode { bytes: bytes.clone() },
             Op::Process { bytes: bytes.clone(), cap, fill: data[0] },
         ];
-        collect(&props::c10::C10, &props::c10::Case { cfg: cfg.clone(), ops }, known, &mut out);
+        collect(&props::c10::C10, &props::c10::Case { cfg: cfg.clone(), ops, repeat: 1 }, known, &mut out);
     }
     if on("C11") {
         collect(&props::c11::C11, &props::c11::Case { bytes: bytes.clone(), cfg: cfg.clone(), hist: hist.clone(), cap, fill: data[0], stride: data[1] | 1 }, known, &mut out);
